@@ -1420,11 +1420,19 @@ def _deserialize_node(
             deserialize_node_device_configuration(device_configuration, values=merged_values)
             for device_configuration in proto.device_configurations
         )
+    last_attribute_index = {a.name: i for i, a in enumerate(proto.attribute)}
     node = _core.Node(
         proto.domain,
         proto.op_type,
         node_inputs,
-        [_deserialize_attribute(a, scoped_values) for a in proto.attribute],
+        [
+            # A repeated attribute name is invalid; only the last attribute of a name is kept by the
+            # node, so only that one is deserialized (a dropped GRAPH attribute would otherwise leave
+            # its nodes behind as users of outer-scope values)
+            _deserialize_attribute(a, scoped_values)
+            for i, a in enumerate(proto.attribute)
+            if last_attribute_index[a.name] == i
+        ],
         overload=getattr(proto, "overload", ""),
         outputs=node_outputs,
         name=proto.name,
